@@ -168,11 +168,19 @@ def ramses_expected_units(unit_d, unit_l, unit_t):
         "grav_potential": (v * v, dims_of(cm=2, s=-2)),
         "acceleration": (ul / ut**2, dims_of(cm=1, s=-2)),
         "none": (1.0, dims_of()),
+        "inv_time": (1.0 / ut, dims_of(s=-1)),
     }
+
+
+# exact names a user configuration defines (set by a worker running in the "user-units" environment): they win over patterns
+USER_KINDS = {}
+USER_UNITS_ENVIRONMENT = {"velocity_divergence": "inv_time", "position_tag": "none", "radiative_energy_fraction": "none"}
 
 
 def ramses_kind(name):
     """Which RAMSES code unit a stored variable is expressed in (by its conventional name)."""
+    if name in USER_KINDS:
+        return USER_KINDS[name]
     if name == "density":
         return "density"
     if name.startswith("velocity"):
